@@ -54,6 +54,9 @@ pub const EDIT_CLASSES: &[&str] = &[
     "non_serde_type",
 ];
 
+/// Edit classes outside the stratified list (asked for by name in directed blocks).
+pub const REORDER_CLASSES: &[&str] = &["reorder_fields", "reorder_variants"];
+
 fn serde_struct_names(m: &Model, reachable_only: bool) -> Vec<String> {
     let reach = reachable_types(m);
     m.structs()
@@ -408,6 +411,28 @@ pub fn gen_edit(r: &mut Rng, class: &str, m: &Model) -> Option<(Model, String)> 
                     s.fields[k].validate = new;
                 }
             }
+        }
+        // The two classes that only PERMUTE what an item declares (round j). They are not in
+        // EDIT_CLASSES (the strata of the checks stay what they were); C08's third directed
+        // quick block and its thorough tail ask for them by name.
+        "reorder_fields" => {
+            let names: Vec<String> = serde_struct_names(m, true).into_iter().filter(|n| m.structs().iter().any(|s| &s.name == n && s.fields.len() >= 2)).collect();
+            let n = pick(r, &names)?;
+            let s = m2.struct_mut(&n)?;
+            let a = r.below(s.fields.len() as u64) as usize;
+            let b = (a + 1 + r.below(s.fields.len() as u64 - 1) as usize) % s.fields.len();
+            s.fields.swap(a, b);
+            desc = format!("swap fields {}.{} and {}.{}", n, s.fields[b].name, n, s.fields[a].name);
+        }
+        "reorder_variants" => {
+            let reach = reachable_types(m);
+            let names: Vec<String> = m.enums().iter().filter(|e| reach.contains(&e.name) && e.variants.len() >= 2).map(|e| e.name.clone()).collect();
+            let n = pick(r, &names)?;
+            let e = m2.enum_mut(&n)?;
+            let a = r.below(e.variants.len() as u64) as usize;
+            let b = (a + 1 + r.below(e.variants.len() as u64 - 1) as usize) % e.variants.len();
+            e.variants.swap(a, b);
+            desc = format!("swap variants {}::{} and {}::{}", n, e.variants[b].name, n, e.variants[a].name);
         }
         "add_variant" | "remove_variant" | "rename_variant" | "variant_serde_rename" | "enum_rename_all" => {
             let reach = reachable_types(m);
